@@ -68,15 +68,21 @@ func c11(r *Report) {
 
 	// (3) status list verification
 	sv := p.Func(rev, "StatusList2021", "Verify")
-	r.ArgIs("C11.status.bit-of-the-credentials-index", sv, Fn(rev, "bitstring", "bit"), 0, CallV(Fn("std:strconv", "", "Atoi"), 0), 1)
-	r.ArgIs("C11.status.index-parsed-from-entry", sv, Fn("std:strconv", "", "Atoi"), 0, FieldV("StatusList2021Entry", "StatusListIndex"), 1)
-	r.Gate(Gate{ID: "C11.status.bit-clear", Fn: sv, Effect: SuccessReturn(), ForEach: true, Check: CallCheck(Fn(rev, "bitstring", "bit"), 0, IsFalse),
-		Alt:  []Check{CmpCheck("credentialStatus == nil", token.EQL, FieldV("VerifiableCredential", "CredentialStatus"), NilV(), true)},
-		Skip: []Check{CmpCheck("status.Type != StatusList2021Entry", token.EQL, FieldV("CredentialStatus", "Type"), AnyV(), false), CmpCheck("purpose != revocation", token.EQL, FieldV("StatusList2021Entry", "StatusPurpose"), StrV("revocation"), false)}})
-	r.Gate(Gate{ID: "C11.status.list-loaded", Fn: sv, Effect: SuccessReturn(), ForEach: true, Check: ErrCheck(Fn(rev, "StatusList2021", "statusList")),
-		Alt:  []Check{CmpCheck("credentialStatus == nil", token.EQL, FieldV("VerifiableCredential", "CredentialStatus"), NilV(), true)},
-		Skip: []Check{CmpCheck("status.Type != StatusList2021Entry", token.EQL, FieldV("CredentialStatus", "Type"), AnyV(), false), CmpCheck("purpose != revocation", token.EQL, FieldV("StatusList2021Entry", "StatusPurpose"), StrV("revocation"), false)}})
-	c17ArgFrom(r, "C11.status.named-list", sv, Fn(rev, "StatusList2021", "statusList"), 0, PathV("slEntry", "StatusListCredential"), "the list consulted is the one named by the credential's own status entry")
+	il := p.Func(rev, "StatusList2021", "isListed")
+	r.ArgIs("C11.status.bit-of-the-credentials-index", il, Fn(rev, "bitstring", "bit"), 0, CallV(Fn("std:strconv", "", "Atoi"), 0), 1)
+	r.ArgIs("C11.status.index-parsed-from-entry", il, Fn("std:strconv", "", "Atoi"), 0, FieldV("StatusList2021Entry", "StatusListIndex"), 1)
+	skips := []Check{CmpCheck("status.Type != StatusList2021Entry", token.EQL, FieldV("CredentialStatus", "Type"), AnyV(), false), CmpCheck("purpose != revocation", token.EQL, FieldV("StatusList2021Entry", "StatusPurpose"), StrV("revocation"), false)}
+	noStatus := []Check{CmpCheck("credentialStatus == nil", token.EQL, FieldV("VerifiableCredential", "CredentialStatus"), NilV(), true)}
+	// every revocation entry is looked at, and none may list the credential (fix: the loop returned at the first entry it
+	// could not check, so a later entry that lists the credential was never consulted): no early exit, every iteration
+	// passes "not listed" (or is of another type/purpose)
+	r.Gate(Gate{ID: "C11.status.bit-clear", Fn: sv, Effect: SuccessReturn(), ForEach: true, Check: CallCheck(Fn(rev, "StatusList2021", "isListed"), 0, IsFalse), Alt: noStatus, Skip: skips})
+	r.Refuse(Refuse{ID: "C11.status.listed-is-revoked", Fn: sv, Cond: CallCheck(Fn(rev, "StatusList2021", "isListed"), 0, IsTrue), Effect: SuccessReturn()})
+	// isListed answers from the named list, loaded, with matching purpose; its verdict is the bit itself (tail call)
+	r.Gate(Gate{ID: "C11.status.list-loaded", Fn: il, Effect: SuccessReturn(), Check: ErrCheck(Fn(rev, "StatusList2021", "statusList"))})
+	r.Gate(Gate{ID: "C11.status.purpose-matches", Fn: il, Effect: SuccessReturn(), Check: CmpCheck("sList.StatusPurpose == slEntry.StatusPurpose", token.EQL, FieldV("credentialRecord", "StatusPurpose"), FieldV("StatusList2021Entry", "StatusPurpose"), true)})
+	r.Gate(Gate{ID: "C11.status.verdict-is-the-bit", Fn: il, Effect: SuccessReturn(), Check: ErrCheck(Fn(rev, "bitstring", "bit"))})
+	c17ArgFrom(r, "C11.status.named-list", il, Fn(rev, "StatusList2021", "statusList"), 0, PathV("slEntry", "StatusListCredential"), "the list consulted is the one named by the credential's own status entry")
 	up := p.Func(rev, "StatusList2021", "update")
 	r.Gate(Gate{ID: "C11.status.downloaded-verified", Fn: up, Effect: SuccessReturn(), Check: ErrCheck(Fn(rev, "StatusList2021", "verify"))})
 	r.Gate(Gate{ID: "C11.status.downloaded-is-named", Fn: up, Effect: SuccessReturn(), Check: CmpCheck("statusListCredential == credSubject.ID", token.EQL, ParamV("statusListCredential"), FieldV("StatusList2021CredentialSubject", "ID"), true)})
